@@ -496,6 +496,136 @@ async fn run_duplicate(addr: String, certs: Certs, id: u64, batch: Option<(u32, 
     }
 }
 
+/// An unbatched publisher driven with `feed()` (items stay in the write buffer until a flush) is offered an item
+/// over the frame limit in the middle: that item is refused with an error; every item accepted before and after it
+/// must still reach the subscriber.
+async fn run_feed_oversize(addr: String, certs: Certs, id: u64, comp: Option<&'static str>, before: usize, after: usize) -> Outcome {
+    let topic = unique_topic("c03f", id);
+    let mk = |what: &str, e: String| Outcome::Inconclusive(format!("{}: {}", what, e));
+    let sub_client = match lib_client(&addr, &certs, None).await {
+        Ok(c) => c,
+        Err(e) => return mk("connect", e.to_string()),
+    };
+    let pub_client = match lib_client(&addr, &certs, None).await {
+        Ok(c) => c,
+        Err(e) => return mk("connect", e.to_string()),
+    };
+    let pair = comp.map(compression_pair);
+    let mut sb = sub_client.subscriber(&topic).with_decoder(StringCodec);
+    if let Some((_, d)) = &pair {
+        sb = sb.with_decompression(d.clone());
+    }
+    let mut subscriber = match sb.open().await {
+        Ok(s) => s,
+        Err(e) => return mk("open subscriber", e.to_string()),
+    };
+    let mut ab = pub_client.publisher(&topic).with_encoder(StringCodec);
+    if let Some((c, _)) = &pair {
+        ab = ab.with_compression(c.clone());
+    }
+    let mut aux = match ab.open().await {
+        Ok(p) => p,
+        Err(e) => return mk("open auxiliary publisher", e.to_string()),
+    };
+    let mut k = 0u64;
+    let t0 = Instant::now();
+    let mut established = false;
+    while t0.elapsed() < Duration::from_secs(15) {
+        if aux.send(String::sentinel(k)).await.is_err() {
+            return mk("aux send", "error".into());
+        }
+        k += 1;
+        if let Ok(Some(Ok(it))) = tokio::time::timeout(Duration::from_millis(200), subscriber.next()).await {
+            if it.is_sentinel().is_some() {
+                established = true;
+                break;
+            }
+        }
+    }
+    if !established {
+        return Outcome::Inconclusive("precondition not reached: no sentinel arrived".into());
+    }
+    let mut pb = pub_client.publisher(&topic).with_encoder(StringCodec);
+    if let Some((c, _)) = &pair {
+        pb = pb.with_compression(c.clone());
+    }
+    let mut a = match pb.open().await {
+        Ok(p) => p,
+        Err(e) => return mk("open publisher", e.to_string()),
+    };
+    let mut rng = Rng::new(id);
+    let mut accepted = vec![];
+    let mut refused = 0;
+    let mut script: Vec<String> = (0..before).map(|i| format!("f{:04}", i)).collect();
+    // incompressible text well over the limit
+    let mut big = String::with_capacity(1_300_000);
+    while big.len() < 1_300_000 {
+        big.push((b'a' + rng.below(26) as u8) as char);
+    }
+    script.push(big);
+    script.extend((0..after).map(|i| format!("f{:04}", before + i)));
+    for it in script {
+        let oversize = it.len() > 1_000_000;
+        match a.feed(it.clone()).await {
+            Ok(()) => accepted.push(it),
+            Err(e) => {
+                if !oversize {
+                    return Outcome::Violated { sig: "send-error".into(), detail: format!("feed() of a {}-byte item failed on a healthy connection: {}", it.len(), e) };
+                }
+                refused += 1;
+            }
+        }
+    }
+    if refused == 0 && comp.is_none() {
+        return Outcome::Inconclusive("the 1.3 MB item was not refused".into());
+    }
+    if let Err(e) = a.finish().await {
+        return Outcome::Violated { sig: "finish-error".into(), detail: e.to_string() };
+    }
+    let finished_at = Instant::now();
+    let fence_base = k;
+    let mut got: Vec<String> = vec![];
+    let mut fences = 0;
+    let deadline = Instant::now() + Duration::from_secs(40);
+    loop {
+        if aux.send(String::sentinel(k)).await.is_err() {
+            return mk("aux send (fence)", "error".into());
+        }
+        k += 1;
+        while let Ok(r) = tokio::time::timeout(Duration::from_millis(30), subscriber.next()).await {
+            match r {
+                Some(Ok(it)) => match it.is_sentinel() {
+                    Some(n) if n >= fence_base => fences += 1,
+                    Some(_) => {}
+                    None => got.push(it),
+                },
+                Some(Err(e)) => return Outcome::Violated { sig: "subscriber-error/feed-oversize".into(), detail: e.to_string() },
+                None => break,
+            }
+        }
+        if fences >= 25 && (got.len() >= accepted.len() || finished_at.elapsed() > Duration::from_secs(3)) {
+            break;
+        }
+        if Instant::now() > deadline {
+            return Outcome::Inconclusive("watchdog: fences did not come back within 40 s".into());
+        }
+    }
+    if got == accepted {
+        return Outcome::Held { delivered: got.len() };
+    }
+    let brief = |v: &Vec<String>| v.iter().map(|x| x.chars().take(8).collect::<String>()).collect::<Vec<_>>();
+    Outcome::Violated {
+        sig: format!("{}/around-refused-item", if got.len() < accepted.len() { "lost" } else { "altered" }),
+        detail: format!(
+            "publisher fed {} small items, one 1.3 MB item (refused with an error, as it must be), then {} more, and finished; accepted {:?}, the subscriber yielded {:?}",
+            before,
+            after,
+            brief(&accepted),
+            brief(&got)
+        ),
+    }
+}
+
 fn configs(tier: &str, rng: &mut Rng) -> Vec<Cfg> {
     let thorough = tier == "thorough";
     let comps: Vec<Option<&str>> = vec![None, Some("gzip"), Some("zlib"), Some("zstd"), Some("lz4"), Some("brotli-generic"), Some("brotli-text"), Some("brotli-font"), Some("zlib-9"), Some("zstd-fastest"), Some("gzip-fastest")];
@@ -577,6 +707,31 @@ fn configs(tier: &str, rng: &mut Rng) -> Vec<Cfg> {
         push(codec, comp, batch, n, 0, &mut v);
         v.last_mut().unwrap().sizes = Some(sizes);
     }
+    // mixed sizes without any budget: batches may exceed one frame several times over
+    let n_over = if thorough { 120 } else { 16 };
+    for k in 0..n_over {
+        let n = rng.range(4, 9) as usize;
+        let mut sizes: Vec<usize> = (0..n).map(|_| rng.below(64) as usize).collect();
+        for _ in 0..rng.range(2, 4) {
+            let pos = rng.usize(n);
+            sizes[pos] = match rng.below(4) {
+                0 => 1_000_000,
+                1 => 524_288 + rng.below(16) as usize,
+                2 => 349_520 + rng.below(16) as usize,
+                _ => 300_000 + rng.below(700_000) as usize,
+            };
+        }
+        let codec = ["bytes", "string", "bincode"][k % 3];
+        let comp = if k % 4 == 1 { Some(*rng.pick(&["zstd", "lz4", "gzip"])) } else { None };
+        push(codec, comp, Some((*rng.pick(&[2u32, 3, 4, 10, 100]), *rng.pick(&[3_600_000u64, 3_600_000, 40]))), n, 0, &mut v);
+        v.last_mut().unwrap().sizes = Some(sizes);
+    }
+    // batches of individually legal, incompressible messages whose *combined* encoding exceeds one frame
+    for (k, sizes) in [vec![400_000usize, 400_000, 400_000, 10, 10], vec![10, 700_000, 700_000, 10], vec![1_000_000, 1_000_000, 20], vec![524_288, 524_288, 5, 5, 5]].into_iter().enumerate() {
+        let n = sizes.len();
+        push("bytes", None, Some(([3u32, 2, 2, 5][k], 3_600_000)), n, 0, &mut v);
+        v.last_mut().unwrap().sizes = Some(sizes);
+    }
     {
         for _ in 0..(if thorough { 1400 } else { 120 }) {
             let codec = codecs[rng.usize(3)];
@@ -654,6 +809,14 @@ pub fn run(rep: &mut StageReport, tier: &str, seed: u64) {
             let r = match tokio::time::timeout(Duration::from_secs(90), run_duplicate(addr.clone(), certs.clone(), 90_000 + i as u64, batch, comp, before)).await {
                 Ok(o) => o,
                 Err(_) => Outcome::Inconclusive("watchdog: duplicate scenario did not finish within 90 s".into()),
+            };
+            out.push((cfg, r));
+        }
+        for (i, (comp, before, after)) in [(None, 2usize, 1usize), (None, 5, 3), (Some("lz4"), 3, 2), (None, 0, 2), (None, 40, 0)].into_iter().enumerate() {
+            let cfg = Cfg { codec: "string", compression: comp.map(|s: &str| s.to_string()), batch: None, count: before + after + 1, payload: 5, sizes: None, compressible: false, id: 91_000 + i as u64 };
+            let r = match tokio::time::timeout(Duration::from_secs(90), run_feed_oversize(addr.clone(), certs.clone(), 91_000 + i as u64, comp, before, after)).await {
+                Ok(o) => o,
+                Err(_) => Outcome::Inconclusive("watchdog: feed/oversize scenario did not finish within 90 s".into()),
             };
             out.push((cfg, r));
         }
